@@ -1,5 +1,6 @@
 import Operon.Model.Proto
 import Operon.Model.Quorum
+import Operon.Model.QuorumTab
 /-!
 Line-protocol driver for the quorum model (C06).
 
@@ -16,6 +17,10 @@ Line-protocol driver for the quorum model (C06).
   cb <reached|failed> <none|ok|raise>                         install / remove `on_quorum_reached` / `on_quorum_failed` (a raising one: `raise`)
   attr tracking <0|1>                                         `enable_reliability_tracking`
   obj <k>                                                     switch to quorum object k (several objects alive; each has its own state)
+  every number (threshold, min_voters, weight, reliability) may carry a tag `<value>@<carrier>` naming the Python type
+  that carries it into the real code (int, bool, Fraction, Decimal, float / int subclass): the model reads the value.
+  conf may also be unstr | unbool | unlen | unrepr | unkey: an answer that cannot be turned into a ballot
+  (`answerBehaviour`: the payload cannot be rendered / read).
   (weight / rel of a vote token may be `_`: keep the profile's value; the colony persists between votes and is
    grown / shrunk to the ballot's length through add_agent / remove_agent)
   → reached decision permit block abstain total thresholdTag [vote kinds:weight:conf] strategy cb=<reached|failed|none> ## branch tags
@@ -48,7 +53,10 @@ def strategyOf? : String → Option Strategy
   | "threshold" => some .threshold
   | _ => none
 
-def customOf (s : String) : Option Rat := if s = "none" then none else some (ratOf s)
+/-- `<value>@<carrier>`: the value; the carrier (which numeric Python type holds it) is not part of the model -/
+def num (s : String) : String := (s.splitOn "@").headD s
+
+def customOf (s : String) : Option Rat := if s = "none" then none else some (ratOf (num s))
 
 def kindOf? : String → Option Kind
   | "P" => some .permit
@@ -63,6 +71,9 @@ def kindOf? : String → Option Kind
     `nan`: float("nan") is rejected like a non-numeric confidence -/
 def confOf (s : String) : Conf :=
   if s = "none" then .absent else if s = "bad" || s = "nan" then .bad
+  else if s = "unstr" || s = "unbool" || s = "unlen" then confOfPayload (.unrenderable false)
+  else if s = "unrepr" then confOfPayload (.unrenderable true)
+  else if s = "unkey" then confOfPayload .confBad
   else if s = "inf" then .num 2 else if s = "-inf" then .num (-1) else .num (ratOf s)
 
 /-- one ballot token `K:weight:rel:conf`; weight / rel `_` = keep what the profile has -/
@@ -71,7 +82,7 @@ structure Tok where
   w : Option Rat
   rel : Option Rat
 
-def optRat (s : String) : Option Rat := if s = "_" then none else some (ratOf s)
+def optRat (s : String) : Option Rat := if s = "_" then none else some (ratOf (num s))
 
 def tokOf? (s : String) : Option Tok :=
   match s.splitOn ":" with
@@ -191,7 +202,7 @@ def step (st : DSt) (toks : List String) : DSt × String :=
     ({ cfg := cfg }, if cfg.isSome then "ok" else "bad-op")
   | ["cfg", s, c, m] =>
     match strategyOf? s with
-    | some strat => ({ cfg := some ⟨strat, customOf c, natD m⟩ }, "ok")
+    | some strat => ({ cfg := some ⟨strat, customOf c, natD (num m)⟩ }, "ok")
     | none => (st, "bad-op")
   | ["colony", n] =>
     match st.colony with
@@ -201,24 +212,24 @@ def step (st : DSt) (toks : List String) : DSt × String :=
     match strategyOf? s, st.cfg with
     | some strat, some _ => ((colonyOp st (.setStrategy strat (customOf c)) none).1, "ok")
     | _, _ => (st, "bad-op")
-  | ["add", name, w] => colonyOp st (.add (decodeCps name) (ratOf w)) none
+  | ["add", name, w] => colonyOp st (.add (decodeCps name) (ratOf (num w))) none
   | ["addsame", i, w] =>
     match (st.colony.getD [])[natD i]? with
-    | some m => colonyOp st (.add m.name (ratOf w)) none
+    | some m => colonyOp st (.add m.name (ratOf (num w))) none
     | none => (st, "bad-op")
   | ["remove", name] =>
     colonyOp st (.remove (decodeCps name)) (some (removeAgent (st.colony.getD []) (decodeCps name)).2)
   | ["setw", name, w] =>
-    colonyOp st (.setWeight (decodeCps name) (ratOf w)) (some (setAgentWeight (st.colony.getD []) (decodeCps name) (ratOf w)).2)
+    colonyOp st (.setWeight (decodeCps name) (ratOf (num w))) (some (setAgentWeight (st.colony.getD []) (decodeCps name) (ratOf (num w))).2)
   | ["attr", "strategy", s] =>
     match strategyOf? s, st.cfg with
     | some strat, some _ => ((colonyOp st (.assignStrategy strat) none).1, "ok")
     | _, _ => (st, "bad-op")
   | ["attr", "threshold", c] => ((colonyOp st (.assignThreshold (customOf c)) none).1, if st.cfg.isSome then "ok" else "bad-op")
-  | ["attr", "minvoters", n] => ((colonyOp st (.assignMinVoters (natD n)) none).1, if st.cfg.isSome then "ok" else "bad-op")
+  | ["attr", "minvoters", n] => ((colonyOp st (.assignMinVoters (natD (num n))) none).1, if st.cfg.isSome then "ok" else "bad-op")
   | ["ldel", i] =>
     if natD i < (st.colony.getD []).length then colonyOp st (.deleteAt (natD i)) none else (st, "bad-op")
-  | ["linsert", i, name, w] => colonyOp st (.insertAt (natD i) (decodeCps name) (ratOf w)) none
+  | ["linsert", i, name, w] => colonyOp st (.insertAt (natD i) (decodeCps name) (ratOf (num w))) none
   | ["pset", i, w, r] =>
     if natD i < (st.colony.getD []).length then colonyOp st (.assign (natD i) (optRat w) (optRat r)) none
     else (st, "bad-op")
